@@ -130,7 +130,7 @@ func plan(tier string) []group {
 	for _, fs := range []uint64{2, 64, 0} {
 		for i, c := range cfgs {
 			c.FSize = fs
-			add('s', c, nil, 6, two)
+			add('s', c, nil, map[bool]int{true: 6, false: 5}[fs == 2], two)
 			if fs == 2 && i == 0 {
 				add('s', c, nil, 7, one)
 			}
@@ -139,13 +139,10 @@ func plan(tier string) []group {
 	for _, fs := range []uint64{2, 0} {
 		for i, c := range cfgs {
 			c.FSize = fs
-			for pi, p := range clientPrefixes {
+			for _, p := range clientPrefixes {
 				add('c', c, p, 4, two)
-				if fs == 2 {
+				if fs == 2 && (i == 0 || i == 3) {
 					add('c', c, p, 5, one)
-				}
-				if fs == 2 && i == 0 && pi == 0 {
-					add('c', c, p, 6, one)
 				}
 			}
 		}
